@@ -65,8 +65,8 @@ static const row ROWS[] = {
 	{ F_INITFAIL_3RD,   2, 5,  0,  0, 0,                    NOLIM, NOLIM, 0,    0,    -1,    0,     1, 0, 0, 0 },
 	{ F_2BLK,           2, 0,  0,  0, 0,                    NOLIM, NOLIM, 0,    0,    0,     0,     1, 0, 0, 0, 1 },	// input ends at every offset of the second Block
 	{ F_2BLK,           2, 3,  2,  0, 0,                    NOLIM, NOLIM, 0,    0,    0,     0,     1, 0, 0, 0, 1 },
-	{ F_3BLK,           3, 0,  0,  0, 0,                    NOLIM, NOLIM, 0,    0,    0,     0,     1, 0, 0, 0, 5 },	// the k-th pthread_create fails (k = 1..threads): LZMA_MEM_ERROR, then the same handle decodes the file
-	{ F_3BLK,           2, 7,  2,  0, 0,                    NOLIM, NOLIM, 0,    0,    0,     0,     0, 0, 0, 0, 5 },
+	{ F_3BLK,           3, 0,  0,  0, 0,                    NOLIM, NOLIM, 0,    0,    0,     0,     0, 0, 0, 0, 5 },	// the k-th pthread_create fails (k = 1..threads): LZMA_MEM_ERROR, then the same handle decodes the file
+	{ F_3BLK,           2, 7,  2,  0, 0,                    NOLIM, NOLIM, 0,    0,    0,     0,     1, 0, 0, 0, 5 },
 	{ F_2DICT,          2, 60, 0,  0, 0,                    NOLIM, 100000, 1,   0,    0,     0,     1, 0, 0, 0 },	// LZMA_MEMLIMIT_ERROR for the second Block while the first is still being decoded and input is pending (LZMA_RUN); then the limit is raised
 	{ F_2DICT,          2, 60, 3,  0, 0,                    NOLIM, 100000, 1,   0,    0,     0,     1, 0, 0, 0 },
 	{ F_2DICT,          2, 0,  0,  1, 0,                    NOLIM, 100000, 1,   0,    0,     0,     1, 1, 0, 0 },
